@@ -149,6 +149,8 @@ def compare_cpds(ctx, cpds, names, world, want_fn, what, tol=dict(atol=1e-9, rto
 def execute(case, ctx):
     world, config = case["world"], case["config"]
     ctx.fault("relabel")
+    _n0 = Names(case["world"])
+    ctx.sig_order("labels", [_n0.lab2idx[x] for x in set(_n0.labels)])
     ctx.fault("insertion_permute")
     for i, op in enumerate(case["ops"]):
         ctx.step_no = i
